@@ -432,6 +432,364 @@ C17_RULE = ("cases = growth-heavy programs (first allocation, grow left, grow ri
             "distinct_nontrivial counts distinct (program, width, back end, level, k) with the failing request actually reached.")
 
 
+C11_RULE = ("cases = source programs from the corpus and the C03 generator mix (structured idioms, register-pressure systems, pressure x pointer moves, mutants, scans, roaming); every case is "
+            "translated at levels 0..3 with both generator settings (2 registers + fusion, 11 registers without); one evaluation = one bytecode program checked by (a) the static validator: CFG from the "
+            "branch offsets, every branch target in 0..=len, every tape operand inside [min_accessed,max_accessed] containing 0, every temporary index < temps, forward must-be-defined analysis "
+            "(no read before write on any path), backward liveness (every register temporary needed after a non-branch instruction and not defined by it has its bit in live[i]), live.len()==insts.len(); "
+            "and (b) the dynamic shadow: an independent bytecode interpreter in adversarial-contract mode (temporaries start poisoned, registers not declared live are destroyed at every instruction) whose "
+            "event log must equal the canonical run. The validator additionally runs on the bytecode held by every executor (hook H2) in all differential checks. distinct_nontrivial counts distinct (program, width) with at least one loop.")
+C12_RULE = ("cases = source strings: every string over {[,],+} up to length 7 (3280, exhaustive), bracket soup with multi-byte UTF-8, near-valid programs with one bracket flipped/removed/added, "
+            "valid generated programs, nesting depth 20..300; each string is also run with comment characters (ASCII, control, NUL, 2/3/4-byte UTF-8, combining marks) inserted. One evaluation = one "
+            "Executor::create (+ execution for balanced strings) of IrInterpreter / BcInterpreter / BaseJitCompiler at a sampled width and level, in a forked child on the main-thread stack, compared with a "
+            "15-line reference matcher over chars(): accept iff balanced, else LoopNotOpened at the first unmatched ']' or LoopNotClosed at the innermost unclosed '[' (character index), same verdict and "
+            "command-relative position with comments, same event log with comments; the in-place interpreter must not panic. distinct_nontrivial counts distinct strings with >= 2 brackets.")
+C13_RULE = ("cases = valid programs (corpus, generator mix, nesting depth 20..300) x width x level; one evaluation = one compilation of all executors (IR, both bytecodes, machine code in all four mode "
+            "combinations) under catch_unwind in a forked child; artefact hashes (Debug of ir::Program, Debug of both bc::Program, print_mc bytes) are compared between consecutive compilations, between "
+            "compilations separated by other compilations in the same process, and - for a shared index range compiled by all 16 worker processes started with setarch -R - across processes; the bytecode held by "
+            "each executor must equal the public translate output; each executor is executed six times on fresh contexts (plain, budget 7, output refused at event 1, plain, budget 2^40, plain) and the plain logs compared; "
+            "allocator calls of compilation are measured along seven parameterised families for n = 4..64 and may grow by at most 32x + 20000 per doubling. Runs in the release and the debug-assertion/overflow-check profile. "
+            "distinct_nontrivial counts distinct (program, width) with a loop.")
+
+
+# ---------------------------------------------------------------------------------------------------
+# C16: the command line
+
+import random
+import tempfile
+from concurrent.futures import ThreadPoolExecutor
+
+BACKENDS = {"--inplace": "inplace", "--ir-int": "irint", "--bc-int": "bcint", "--base-jit": "basejit"}
+PRINTS = ["--print-ir", "--print-bc", "--print-jit-bc", "--print-jit-mc"]
+WIDTH_WITNESS = "+++++[>+<---]>."
+
+C16_PROGRAMS = [
+    ("++++++++[>++++++++<-]>+.+.+.", b""),
+    (",[.,]", b"hello"),
+    (",>,<[->+<]>.", b"\x03\x04"),
+    ("--[>+<--]>.", b""),
+    ("+++++[>+<---]>.", b""),
+    ("-[>+<-----]>.", b""),
+    (",[>+>+<<-]>.>.", b"A"),
+    ("++[>+++[>++<-]<-]>>.", b""),
+    (">,[>,]<[.<]", b"stressed"),
+    ("+[->,.<]", b""),
+    ("++++++++++[>++++++++++<-]>[<+>-]<.[-]>+[<+++>-]<.", b""),
+    (",[-[-[-[.[-]]]]]", b"\x07"),
+]
+
+
+def c16_model(flags):
+    """The property's model of the flags: last flag of each group wins; defaults 8 bit, base JIT, level 2."""
+    width, backend, level, limit, static, printer = 8, "basejit", 2, None, False, None
+    i = 0
+    while i < len(flags):
+        f = flags[i]
+        if f in ("-i8", "-i16", "-i32", "-i64"):
+            width = int(f[2:])
+        elif f in BACKENDS:
+            backend, printer = BACKENDS[f], None
+        elif f in PRINTS:
+            printer, backend = f, None
+        elif f in ("-O0", "-O1", "-O2", "-O3", "-O4", "-O5"):
+            level = int(f[2:])
+        elif f == "--limit":
+            limit = int(flags[i + 1])
+            i += 1
+        elif f == "--static":
+            static = True
+        i += 1
+    return width, backend, level, limit, static, printer
+
+
+def check_c16(tier, seed):
+    t0 = time.time()
+    hpbf = build_repo_cli()
+    merged = Merge()
+    rng = random.Random(seed * 7919 + 16)
+    n = 12000 if tier == "thorough" else 2000
+    tmpdir = tempfile.mkdtemp(prefix="c16_", dir=OUT if os.path.isdir(OUT) else None)
+    C = merged.counters
+    for k in ("evaluations", "held", "violated", "strace_observed", "jit_mapping_seen", "static_mapping_seen", "print_runs", "error_runs", "limit_runs", "static_runs"):
+        C[k] = 0
+
+    def run(argv, stdin_bytes, use_strace=False):
+        inp = os.path.join(tmpdir, f"in_{threading_id()}_{rng_local().random()}.bin")
+        with open(inp, "wb") as f:
+            f.write(stdin_bytes)
+        fd = os.open(inp, os.O_RDONLY)
+        trace = None
+        cmd = [hpbf] + argv
+        # machine code printed by --print-jit-mc embeds absolute addresses: run without ASLR
+        cmd = ["setarch", "x86_64", "-R"] + cmd
+        if use_strace:
+            trace = inp + ".strace"
+            cmd = ["strace", "-f", "-e", "trace=mmap", "-o", trace] + cmd
+        try:
+            r = subprocess.run(cmd, stdin=fd, capture_output=True, timeout=60)
+            off = os.lseek(fd, 0, os.SEEK_CUR)
+            rc, out, err = r.returncode, r.stdout, r.stderr
+        except subprocess.TimeoutExpired:
+            rc, out, err, off = None, b"", b"", -1
+        os.close(fd)
+        tr = ""
+        if trace and os.path.exists(trace):
+            tr = open(trace, errors="replace").read()
+            os.remove(trace)
+        os.remove(inp)
+        return rc, out, err, off, tr
+
+    import threading
+    _tl = threading.local()
+
+    def threading_id():
+        return threading.get_ident()
+
+    def rng_local():
+        if not hasattr(_tl, "r"):
+            _tl.r = random.Random(threading.get_ident())
+        return _tl.r
+
+    # witnesses, verified at run time
+    wit = {}
+    for w in (8, 16, 32, 64):
+        rc, out, _, _, _ = run(["--print-ir", "-O1", f"-i{w}", WIDTH_WITNESS], b"")
+        wit[w] = out
+    width_witness_ok = len(set(wit.values())) == 4
+    C["width_witness_distinct"] = int(width_witness_ok)
+    lvl_prog = None
+    for cand in [",>+++>,>,>+++>+>,[<<[<<<<+++++>>>>>>>+<<<-]>>>[-<<<+>>>]<<<<<<[->>>>+++>>+<<<<<<]>>>>>>[<<<<<<+>>>>>>-]<<<<<<[->>>++>>>+<<<<<<]>>>>>>[<<<<<<+>>>>>>-]<-]<<<<<<.>.>.>.>.>.",
+                 ">>,<[-]>[-<<++++++++>+>]<[>+<-]<[>>[-]+++[[>[-]<<[>>+<<-]>>[-<<+>>][+-]<<[->>+++++++++++<<]>-]<++++>-]>[-]<[>+<-]<[>+<-]>>[<<+>>-]<<<[-]]>[>+<<+++++++>-]>.<<.>.<..>.>.",
+                 ">>>>>+++++<<<+>>>+[<<<<<[>>>+++++>>>++++++++<<++<<<<-]>>>>>-]>,[<[-]>[<<++++>+>-]<[->+<]<<<[-]<[->+++<]>[-<+>]<++<[>+++++++<-]>>>>>>-]..<<<<<<.>>>>>.<<<<<.>.>.>.>.>.>.",
+                 ",[>>,<<<<<[>>>>+<<<<-]>[<+>-]>>>>[<<<<<+>>>>>-]<.<-]", "+>+[[[<.]+.]-<.]", ",[>+>+<<-]>[<+>-]>[<<+>>-]<<.", "++[>+++[>++<-]<-]>>.[>+<-]>.",
+                 "+[,>,>,>[-]>[-]>[-]<<<<<[>[>>+>+<<<-]>>>[<<<+>>>-]<<<<-]>[>[>+>+<<-]>>[<<+>>-]<<<-]>>[>+<-]>[-[>+<<++>-]<+>>[<+>-]<]<.<<<[-]+]"]:
+        outs = [run(["--print-ir", f"-O{l}", cand], b"")[1] for l in range(4)]
+        if len(set(outs)) == 4:
+            lvl_prog = (cand, outs)
+            break
+    C["level_witness_found"] = int(lvl_prog is not None)
+
+    cases = []
+    for i in range(n):
+        code, stdin = rng.choice(C16_PROGRAMS)
+        kind = rng.choices(["run", "print", "unbalanced", "missing_file", "limit", "static", "level_witness", "width_witness"], weights=[40, 12, 10, 6, 10, 8, 7, 7])[0]
+        flags = []
+        for _ in range(rng.randint(0, 3)):
+            flags.append(rng.choice(["-i8", "-i16", "-i32", "-i64"]))
+        for _ in range(rng.randint(0, 2)):
+            flags.append(rng.choice(list(BACKENDS)))
+        for _ in range(rng.randint(0, 2)):
+            flags.append(rng.choice(["-O0", "-O1", "-O2", "-O3", "-O4", "-O5"]))
+        rng.shuffle(flags)
+        if kind == "print":
+            flags.insert(rng.randint(0, len(flags)), rng.choice(PRINTS))
+            # a later backend flag would override the print option: keep the print option last among the two groups
+            flags = [f for f in flags if f not in BACKENDS] + []
+        if kind == "level_witness" and lvl_prog:
+            code, stdin = lvl_prog[0], b""
+            flags = [f for f in flags if f not in BACKENDS] + ["--print-ir"]
+        if kind == "width_witness":
+            code, stdin = WIDTH_WITNESS, b""
+            flags = [f for f in flags if f not in BACKENDS and not f.startswith("-O")] + ["--print-ir", "-O1"]
+        if kind == "limit":
+            flags += ["--limit", str(rng.choice([0, 1, 3, 10, 100, 10 ** 6, 10 ** 12]))]
+        if kind == "static":
+            flags += ["--static"]
+        if code in ("--[>+<--]>.", "+++++[>+<---]>.", "-[>+<-----]>.") and kind not in ("width_witness", "level_witness", "print"):
+            # wrap-dependent: 2^31+ iterations at 32/64 bit; pin the width to 8 or 16
+            flags.append(rng.choice(["-i8", "-i16"]))
+        if kind == "unbalanced":
+            code = rng.choice(["[" + code, code + "]", code + "[", "]" + code])
+        # split the code between files and bare arguments
+        pieces = []
+        rest = code
+        while rest:
+            k = rng.randint(1, max(1, len(rest)))
+            pieces.append(rest[:k])
+            rest = rest[k:]
+            if len(pieces) >= 4:
+                pieces.append(rest)
+                rest = ""
+        pieces = [p for p in pieces if p]
+        cases.append((i, kind, flags, pieces, code, stdin))
+
+    def build_argv(i, flags, pieces, missing):
+        argv = list(flags)
+        files = []
+        code_args = []
+        r = random.Random(seed * 1000003 + i)
+        for j, p in enumerate(pieces):
+            if r.random() < 0.4:
+                fn = os.path.join(tmpdir, f"c_{i}_{j}.bf")
+                with open(fn, "w") as f:
+                    f.write(p)
+                files.append(fn)
+                code_args += [r.choice(["-f", "--file"]), fn]
+            else:
+                code_args.append(p)
+        if missing:
+            code_args.insert(r.randint(0, len(code_args)), os.path.join(tmpdir, "does_not_exist.bf"))
+            code_args.insert(code_args.index(os.path.join(tmpdir, "does_not_exist.bf")), "-f")
+        # interleave flags and code pieces (order of code pieces is kept)
+        out = []
+        fl = list(argv)
+        # keep "--limit N" together
+        units = []
+        k = 0
+        while k < len(fl):
+            if fl[k] == "--limit":
+                units.append([fl[k], fl[k + 1]])
+                k += 2
+            else:
+                units.append([fl[k]])
+                k += 1
+        cu = []
+        k = 0
+        while k < len(code_args):
+            if code_args[k] in ("-f", "--file"):
+                cu.append([code_args[k], code_args[k + 1]])
+                k += 2
+            else:
+                cu.append([code_args[k]])
+                k += 1
+        while units or cu:
+            if units and (not cu or r.random() < 0.5):
+                out += units.pop(0)
+            else:
+                out += cu.pop(0)
+        return out, files
+
+    def one(case):
+        i, kind, flags, pieces, code, stdin = case
+        argv, files = build_argv(i, flags, pieces, kind == "missing_file")
+        width, backend, level, limit, static, printer = c16_model(flags)
+        use_strace = (i % 8 == 0) and kind in ("run", "static", "limit")
+        rc, out, err, off, tr = run(argv, stdin, use_strace)
+        for f in files:
+            os.remove(f)
+        why = None
+        info = {"strace": use_strace}
+        if rc is None:
+            return (case, argv, "inconclusive", "timeout (60 s)", info)
+        if kind == "missing_file":
+            if rc != 1 or not err or out:
+                why = f"unreadable file: exit {rc}, stderr {len(err)} bytes, stdout {out[:20]!r}; expected exit 1, a diagnostic and no output"
+        elif kind == "unbalanced" and (backend != "inplace"):
+            if rc != 1 or not err or out:
+                why = f"unbalanced brackets with a parsing back end: exit {rc}, stderr {len(err)} bytes, stdout {out[:20]!r}; expected exit 1, a diagnostic and no output"
+        elif kind == "unbalanced":
+            if rc not in (0, 1):
+                why = f"in-place on unbalanced code: exit {rc}"
+        elif printer is not None:
+            ref_rc, ref_out, _, _, _ = run([printer, f"-O{level}", f"-i{width}", code], b"")
+            if rc != 0 or out != ref_out or ref_rc != 0:
+                why = f"{printer} with flags {flags}: output differs from `{printer} -O{level} -i{width}` (level/width/default handling), exit {rc}"
+            elif off != 0:
+                why = f"{printer} consumed {off} bytes of stdin"
+            elif kind == "width_witness" and out != wit[width]:
+                why = f"width witness printed the IR of another width than {width}"
+            elif kind == "level_witness" and lvl_prog and out != lvl_prog[1][min(level, 3)]:
+                why = f"level witness printed the IR of another level than min({level},3)"
+        else:
+            want = py_spec(code, stdin, width, cap=3000000)
+            if want is None:
+                return (case, argv, "inconclusive", "canonical run too long", info)
+            want_out = bytes(e for e in want if e < 0x100)
+            if rc != 0:
+                why = f"exit status {rc} on success path, stderr {err[:100]!r}"
+            elif limit is not None and limit < 10 ** 6:
+                if want_out[:len(out)] != out:
+                    why = f"--limit {limit}: stdout {out[:20]!r} is not a prefix of the canonical output {want_out[:20]!r}"
+            elif out != want_out:
+                why = f"stdout {out[:24]!r} differs from the canonical output {want_out[:24]!r} for width {width}, back end {backend}, level {level}"
+            if why is None and use_strace and tr:
+                jit_seen = any("PROT_EXEC" in l and "MAP_ANONYMOUS" in l for l in tr.splitlines())
+                big = False
+                for l in tr.splitlines():
+                    if "mmap(NULL, " in l and "MAP_ANONYMOUS" in l:
+                        try:
+                            sz = int(l.split("mmap(NULL, ")[1].split(",")[0])
+                            if sz >= (1 << 29):
+                                big = True
+                        except ValueError:
+                            pass
+                info.update({"jit_seen": jit_seen, "big": big})
+                if jit_seen != (backend == "basejit"):
+                    why = f"back end selection: anonymous PROT_EXEC mapping {'seen' if jit_seen else 'not seen'} but the flags select {backend}"
+                elif big != static:
+                    why = f"static mode: a >= 512 MiB anonymous mapping was {'seen' if big else 'not seen'} but --static is {'on' if static else 'off'}"
+        return (case, argv, "violated" if why else "held", why, info)
+
+    with ThreadPoolExecutor(max_workers=NCPU) as ex:
+        results = list(ex.map(one, cases))
+    os.makedirs(os.path.join(OUT, "replays", "C16"), exist_ok=True)
+    for (case, argv, verdict, why, info) in results:
+        i, kind, flags, pieces, code, stdin = case
+        C["evaluations"] += 1
+        C[f"kind.{kind}"] = C.get(f"kind.{kind}", 0) + 1
+        if info.get("strace"):
+            C["strace_observed"] += 1
+            C["jit_mapping_seen"] += int(bool(info.get("jit_seen")))
+            C["static_mapping_seen"] += int(bool(info.get("big")))
+        merged.distinct.add(hash((tuple(flags), code, kind)))
+        if verdict == "held":
+            C["held"] += 1
+        elif verdict == "inconclusive":
+            merged.inconclusive.append(f"{argv}: {why}")
+        else:
+            C["violated"] += 1
+            rp = os.path.join(OUT, "replays", "C16", f"C16-{i}-{seed}.json")
+            body = {"property": "C16", "kind": "cli", "argv": [a.replace(tmpdir, "$TMP") for a in argv], "flags": flags, "pieces": pieces, "code": code, "stdin_hex": stdin.hex(), "case_kind": kind, "why": why}
+            json.dump(body, open(rp, "w"))
+            merged.violations.append({"replay": rp, "signature": kind, "case": body, "stage": "cli"})
+        if len(merged.samples) < 8 and i % 97 == 3:
+            merged.samples.append({"argv": [a.replace(tmpdir, "$TMP") for a in argv], "stdin_hex": stdin.hex(), "kind": kind, "verdict": verdict})
+    try:
+        os.rmdir(tmpdir)
+    except OSError:
+        pass
+    return finish("C16", tier, seed, "exploration", merged, t0,
+                  ("one case = one invocation of target/release/hpbf (rebuilt from /repo) with a random subset and order of width / back end / level flags (repeated flags allowed), the code of one of "
+                   f"{len(C16_PROGRAMS)} programs split at random between -f files and bare arguments interleaved with the flags, and stdin from a regular file; kinds: plain run, print option, unbalanced code, unreadable file, "
+                   "--limit, --static, level witness and width witness through --print-ir. Oracle: check.py's canonical interpreter on the model configuration (last flag wins; defaults 8 bit, base JIT, -O2; -O4/-O5 = -O3). "
+                   "Every 8th run is traced with strace: an anonymous PROT_EXEC mapping must be present iff the JIT is selected, a >= 512 MiB anonymous mapping iff --static. Print options must leave the stdin file offset at 0. "
+                   "distinct_nontrivial counts distinct (flag list, program, kind)."),
+                  ["check.py's Python canonical interpreter", "'last flag wins' for repeated flags (the statement only gives defaults)", "strace as the observer of which back end ran"],
+                  floors=[("width_witness_distinct", 1), ("level_witness_found", 1), ("strace_observed", 20), ("jit_mapping_seen", 3), ("distinct_nontrivial", 50)])
+
+
+def check_c13(tier, seed):
+    t0 = time.time()
+    merged = Merge()
+    count = 6000 if tier == "thorough" else 500
+    shared = 1500 if tier == "thorough" else 200
+    art = {}
+    nproc = {}
+    for prof in ("release", "dbg"):
+        b = build(prof)
+        res = run_shards(b, "c13", "C13", prof, seed, tier, NCPU, count if prof == "release" else count // 2, 3000,
+                         extra=["--shared", str(shared)], wrapper=["setarch", "x86_64", "-R"])
+        merged.add(prof, res)
+        for r in res:
+            for k, h in r.get("artefacts", []):
+                kk = prof + ":" + k
+                nproc[kk] = nproc.get(kk, 0) + 1
+                if kk in art and art[kk] != h:
+                    merged.violations.append({"replay": os.path.join(OUT, "replays", "C13", "crossproc-" + k.replace(":", "_") + ".json"), "signature": "cross-process",
+                                              "case": {"kind": "compile", "why": f"artefacts of {k} differ between worker processes ({prof})", "key": k}, "stage": prof})
+                art.setdefault(kk, h)
+    merged.counters["artefact_keys_compared_across_processes"] = len(art)
+    merged.counters["min_processes_per_key"] = min(nproc.values()) if nproc else 0
+    for v in merged.violations:
+        if v.get("signature") == "cross-process":
+            os.makedirs(os.path.dirname(v["replay"]), exist_ok=True)
+            json.dump(v["case"], open(v["replay"], "w"))
+    return finish("C13", tier, seed, "exploration", merged, t0, C13_RULE,
+                  ["machine code embeds absolute addresses of runtime functions: processes are started without ASLR (setarch -R) so equal code means equal bytes",
+                   "std HashMap seeds differ per map instance and per process, which is the perturbation the determinism claim is tested against",
+                   "'super-polynomial blow-up' is restated as a growth-ratio bound on allocator calls along parameterised families; wall-clock is only a watchdog"],
+                  floors=[("artefact_keys_compared_across_processes", 100), ("min_processes_per_key", 3), ("growth_ratios_checked", 20), ("repeated_executions", 1000), ("distinct_nontrivial", 50)])
+
+
 def main():
     if len(sys.argv) < 2:
         print(__doc__)
@@ -459,6 +817,13 @@ def main():
         "C05": lambda: check_cmd("C05", tier, seed, "c05", 700, 12000, "exploration", C05_RULE, DIFF_ASSUME + [
             "non-termination is restated as: does not return within a window >= 100x the canonical time-to-cycle (a return inside the window is a definite violation; the converse is bounded)",
             "roaming divergence (never repeats a state) is outside the quantifier"], floors=[("spec.cycle_proved", 40), ("cycle.silent", 5), ("cycle.printing", 5), ("distinct_nontrivial", 20)], secs=(100, 1500)),
+        "C11": lambda: check_cmd("C11", tier, seed, "c11", 1500, 40000, "exploration", C11_RULE, [
+            "the validator's rules are the property's clauses; they were calibrated on the unchanged tree (no rule is stricter than what the generator does)",
+            "per bytecode program the static part covers all paths; over programs it is sampling"], floors=[("bytecodes_with_spilled_temporaries", 50), ("adversarial_interpretations", 500), ("distinct_nontrivial", 50)]),
+        "C12": lambda: check_cmd("C12", tier, seed, "c12", 12000, 400000, "exploration", C12_RULE, DIFF_ASSUME + ["nesting depth is bounded by 300 (the property says moderate depth)"],
+                                 floors=[("kind.exhaustive<=7", 3280), ("unbalanced.not_opened", 100), ("unbalanced.not_closed", 100), ("kind.deep_balanced", 20), ("distinct_nontrivial", 50)], profiles=("release", "dbg")),
+        "C13": lambda: check_c13(tier, seed),
+        "C16": lambda: check_c16(tier, seed),
         "C17": lambda: check_cmd("C17", tier, seed, "c17", 24, 80, "fault_enumeration", C17_RULE, [
             "the global allocator of the harness is the only allocator hpbf sees; null is returned for exactly one request per run",
             "a SIGSEGV/SIGBUS handler turns memory faults into an attributable exit status"], floors=[("failed.zeroed_request (tape / context)", 50), ("distinct_nontrivial", 50)], secs=(300, 3000)),
